@@ -34,6 +34,10 @@ THEOREM_NOTES = {
     "C15_fixed_dates": "about the repaired tree (fix commit for F-C15-3: np.cumsum of the interval totals); on the unrepaired tree the oracle reports F-C15-3",
     "C15_jump_times": "partial for the Markov-chain simulators: running sums proved for ONE product interval; with several intervals the chain "
                       "restarts at the origin (C15_chain_restart_refuted, F-C15-4)",
+    "C15_cap_inner_steps": "positive cap theorem for what SimulationMaximumStep returns: every step except the last one <= eps (Q arithmetic; "
+                           "in float arithmetic on non-dyadic inputs the remainders are rounded: F-C15-5, oracle tolerance 1e-12)",
+    "C15_finer_grid_aligned": "a parametricity statement about the pair-valued model (one gap list, values inserted at the same positions by "
+                              "construction); that the two numpy inserts of helper.py really use the same positions is pinned by the correspondence",
     "C15_finer_grid": "Refines = inserted points carry the value of the point before them and take their gap out of the following original point",
     "C15_cap_whole_path_refuted": "F-C15-1: the cap is applied before t=0 and the maturity are added",
 }
@@ -45,9 +49,41 @@ CANON = {
     "F-C15-1": "max_step_epsilon: a step of the returned path exceeds epsilon (the step to the maturity / a path without jumps is not refined)",
     "F-C15-2": "MCLevyCopulaSimulationFixedTimes.project fails for more than one product date",
     "F-C15-3": "fixed-date simulators: the jump part at a date is the jump total of the last interval, not the running sum",
+    "F-C15-5": "build_finer_grid in float arithmetic on non-dyadic inputs: the remainders of gaps that are (nearly) multiples of epsilon are "
+               "rounded, giving duplicate times and original jump times shifted by an ulp",
     "F-C15-4": "Markov-chain jump-time simulators (single and coupled) restart the jump path at the origin at every product date "
                "(the coupled variant raises on intervals with different jump counts)",
 }
+
+
+def matches_known(v, known):
+    """a violation is accepted as a recorded finding only if it is exactly the recorded class"""
+    r, kid = v["replay"], known["id"]
+    fr = lambda x: Fraction(x) if not isinstance(x, str) else Fraction(x)   # noqa  (replays may carry "p/q" strings)
+    try:
+        if kid == "F-C15-1":
+            times, eps = [fr(t) for t in r["times"]], fr(r["eps"])
+            steps = [b - a for a, b in zip(times, times[1:])]
+            return all(x <= eps for x in steps[:-1]) and steps[-1] > eps and times[0] == 0 and times[-1] == fr(r["T"])
+        if kid == "F-C15-2":
+            err = r.get("error", "")
+            return (r.get("kind") == "copula-project" or (r.get("kind") == "copula" and r.get("mode") == "fixed" and r.get("intervals", 0) >= 2)) \
+                and err.startswith("TypeError") and ("Cannot construct a dtype from an array" in err or "array() takes from 1 to 2 positional arguments" in err)
+        if kid == "F-C15-4":
+            if r.get("intervals", 0) < 2 or r.get("mode") not in ("jump", "cap"):
+                return False
+            if "error" in r:        # coupled / copula variants raise when the intervals have different numbers of jumps
+                ragged = len(set(r.get("counts", []))) > 1
+                err = r["error"]
+                return ragged and err.startswith("ValueError") and ("inhomogeneous" in err or "all the input array dimensions" in err)
+            return r.get("process", "chain") != "levy" and "restart_prediction" in r \
+                and [fr(x) for x in r["jumps"]] == [fr(x) for x in r["restart_prediction"]]
+        if kid == "F-C15-5":
+            return r.get("kind") == "finer-nondyadic" and r.get("class") in ("duplicate time", "original time lost", "step above eps by rounding") \
+                and r.get("max_excess", 1.0) <= 1e-12
+    except Exception:  # noqa
+        return False
+    return False
 
 
 def report(res, what, replay):
@@ -167,7 +203,7 @@ def tags(rng, n):
 
 
 # ----------------------------------------------------------------------------- oracle on one path (implementation only)
-def check_path(res, what, times, diff, jumps, T, jump_times_expected, running_expected, sq_sigma_w, eps, ctx, fixed_dates=None):
+def check_path(res, what, times, diff, jumps, T, jump_times_expected, running_expected, sq_sigma_w, eps, ctx, fixed_dates=None, interval_sizes=None):
     """times/diff/jumps: lists of floats returned; running_expected: jump value expected at each returned time (exact)"""
     ok = True
 
@@ -188,6 +224,16 @@ def check_path(res, what, times, diff, jumps, T, jump_times_expected, running_ex
     if running_expected is not None and [F(v) for v in jumps] != running_expected:
         fid = {"fixed": "F-C15-3", "chain-restart": "F-C15-4"}.get(ctx.get("finding_hint"))
         rp = dict(times=times, jumps=jumps, running_sum=running_expected)
+        if fid == "F-C15-4" and interval_sizes is not None and jump_times_expected is not None:
+            # what the faithful model of the recorded defect predicts: every interval's chain restarts at the origin
+            restart = []
+            for r in interval_sizes:
+                acc = Fraction(0)
+                for v in r:
+                    acc += F(v)
+                    restart.append(acc)
+            rp["restart_prediction"] = ([Fraction(0)] + refined_expectation(jump_times_expected, restart, times[1:-1])
+                                        + [restart[-1] if restart else Fraction(0)])
         if fid:
             rp["finding"] = fid
         bad(f"{what}: the jump part is not the running sum of the jump increments up to each time", **rp)
@@ -200,13 +246,12 @@ def check_path(res, what, times, diff, jumps, T, jump_times_expected, running_ex
             bad(f"{what}: the diffusion part is not the running sum of the scaled Brownian increments", diffusion=diff, want=want)
     if eps is not None and eps < T:
         steps = [b - a for a, b in zip(times, times[1:])]
-        if max(steps) > eps:
-            k = max(range(len(steps)), key=lambda i: steps[i])
-            where = "path without jumps" if len(times) == 2 else ("step to the maturity" if k == len(steps) - 1 else "inner step")
-            rp = dict(times=times, eps=eps, step=steps[k], where=where)
-            if where != "inner step":
-                rp["finding"] = "F-C15-1"
-            bad(f"{what}: a step of the returned path exceeds max_step_epsilon ({where})", **rp)
+        inner = steps[:-1]          # every step except the one that ends at the maturity
+        if inner and max(inner) > eps:
+            bad(f"{what}: a step of the returned path exceeds max_step_epsilon (inner step)", times=times, eps=eps, step=max(inner), where="inner step")
+        if steps[-1] > eps:         # recorded class F-C15-1: only the step to the maturity (the single step of a jump-free path)
+            where = "path without jumps" if len(times) == 2 else "step to the maturity"
+            bad(f"{what}: a step of the returned path exceeds max_step_epsilon ({where})", times=times, eps=eps, step=steps[-1], where=where, finding="F-C15-1")
     return ok
 
 
@@ -334,7 +379,8 @@ def single_process_cases(res, rng, tier):
                 cum.append(acc)
             run = [Fraction(0)] + refined_expectation(jt, cum, times[1:-1]) + [cum[-1] if cum else Fraction(0)]
             ctx["finding_hint"] = "chain-restart" if (kind == "chain" and n_int > 1) else None
-            check_path(res, f"{type(proc).__name__} ({'jump times' if eps is None else 'jump times, max step'})", times, diff, jumps, T, jt, run, ssw, eps, ctx)
+            check_path(res, f"{type(proc).__name__} ({'jump times' if eps is None else 'jump times, max step'})", times, diff, jumps, T, jt, run, ssw, eps, ctx,
+                       interval_sizes=sizes)
             if eps is not None and eps < T and any(F(t) not in {F(x) for x in times} for t in jt):
                 report(res, "max_step_epsilon: an original jump time is missing from the returned path", dict(ctx, times=times, jump_times=jt))
             cap = "None" if eps is None else f"(Some {qlit(eps)})"
@@ -360,7 +406,7 @@ def coupled_cases(res, rng, tier):
     from rpylib.process.coupling.couplingmarkovchain import CouplingMarkovChain
     from rpylib.distribution.sampling import SamplingMethod
     cfixed, cjump = [], []
-    n_iter = 30 if tier == "quick" else 250
+    n_iter = 90 if tier == "quick" else 400
     for it in range(n_iter):
         mode = ["fixed", "jump", "cap"][it % 3]
         n_int = rng.choice([1, 2, 3]) if mode == "fixed" else (1 if it % 5 else 2)
@@ -433,7 +479,8 @@ def coupled_cases(res, rng, tier):
                     cum.append(acc)
                 run = [Fraction(0)] + refined_expectation(jt, cum, times[1:-1]) + [cum[-1] if cum else Fraction(0)]
                 c2 = dict(ctx, component=name, finding_hint="chain-restart" if n_int > 1 else None)
-                check_path(res, f"CouplingMarkovChain {name} ({'jump times' if eps is None else 'jump times, max step'})", times, d_, j_, T, jt, run, ssw, eps, c2)
+                check_path(res, f"CouplingMarkovChain {name} ({'jump times' if eps is None else 'jump times, max step'})", times, d_, j_, T, jt, run, ssw, eps, c2,
+                           interval_sizes=sizes)
         ql = lambda xs: lst([qlit(v) for v in xs])    # noqa
         qll = lambda xss: lst([ql(xs) for xs in xss])  # noqa
         if mode == "fixed":
@@ -530,6 +577,70 @@ def finer_grid_cases(res, rng, tier):
     return c1, c2, c3
 
 
+def finer_grid_nondyadic(res, rng, tier):
+    """build_finer_grid (both copies) on NON-dyadic float inputs (in production eps = h ** beta is never dyadic): implementation-only
+    oracle.  Exact checks: arrays aligned, times strictly increasing, every original time still present, inserted points repeat the
+    preceding value; the step bound is checked with the explicit float tolerance  gap <= eps + 1e-12."""
+    import numpy as np
+    from rpylib.process.levyprocess import SimulationMaximumStep
+    from rpylib.process.coupling.helper import create_build_finer_grid_fun
+    for it in range(300 if tier == "quick" else 5000):
+        n = rng.randrange(1, 7)
+        eps = rng.choice([0.3, 0.1, 0.7, rng.uniform(0.05, 1.0), 0.25 ** 1.5, 0.125 ** 0.7])
+        if it % 3 == 0:      # gaps that are (nearly) integer multiples of eps: where the float remainder misbehaves
+            ks = sorted(rng.sample(range(1, 40), n))
+            times = [k * eps for k in ks]
+        else:
+            times = sorted(rng.uniform(0.01, 6.0) for _ in range(n))
+        if it == 0:
+            eps, times = 0.3, [0.9, 5.1]          # the recorded witness
+        T = times[-1] + 1.0
+        vals = [float(k + 1) for k in range(len(times))]
+        helper = it % 2 == 1
+        ctx = {"kind": "finer-nondyadic", "copy": "helper fine+coarse" if helper else "levyprocess 1-d", "times": times, "eps": eps, "maturity": T}
+        try:
+            if helper:
+                t2, v2, c2 = create_build_finer_grid_fun(eps, T)(None, np.array(times), np.array(vals), -np.array(vals))
+                aligned = len(t2) == len(v2) == len(c2) and all(a == -b for a, b in zip(v2, c2))
+            else:
+                t2, v2 = SimulationMaximumStep.create_build_finer_grid_fun(eps, T)(None, np.array(times), np.array(vals))
+                aligned = len(t2) == len(v2)
+        except Exception as e:  # noqa
+            report(res, f"build_finer_grid raises {type(e).__name__} on non-dyadic input", dict(ctx, error=str(e)))
+            continue
+        t2, v2 = [float(t) for t in t2], [float(v) for v in v2]
+        ctx["got_times"] = t2
+        res.count(("finer-nd", helper, tuple(times), eps), nontrivial=len(t2) > len(times), kind=f"build_finer_grid non-dyadic ({ctx['copy']})")
+        if not aligned:
+            report(res, "build_finer_grid (non-dyadic): values and times are not aligned", ctx)
+            continue
+        gaps = [b - a for a, b in zip([0.0] + t2, t2)]
+        if max(gaps) > eps + 1e-12:
+            report(res, "build_finer_grid (non-dyadic): a gap of the result exceeds epsilon by more than the float tolerance 1e-12", dict(ctx, max_gap=max(gaps)))
+        lost = [t for t in times if t not in t2]
+        dev = max((min(abs(t - u) for u in t2) for t in lost), default=0.0)
+        dup = any(b <= a for a, b in zip(t2, t2[1:]))
+        res.bump("nondyadic_outcome", "duplicate time" if dup else ("original time lost" if lost else "clean"))
+        if dup or lost:
+            what = "duplicate time" if dup else "original time lost"
+            rp = dict(ctx, **{"class": what, "max_excess": max(dev, max(0.0, max(gaps) - eps)), "lost_original_times": lost})
+            if dev <= 1e-12 and (not dup or min(b - a for a, b in zip(t2, t2[1:])) > -1e-12):
+                rp["finding"] = "F-C15-5"       # float rounding of the remainders: recorded class
+            report(res, f"build_finer_grid (non-dyadic): {what}", rp)
+        # inserted points repeat the value of the point before them (exact: values are copied, never computed)
+        prev, k = 0.0, 0
+        for i, (t, v) in enumerate(zip(t2, v2)):
+            if k < len(vals) and v == vals[k] and v != prev:
+                k += 1
+            elif v != prev:
+                report(res, "build_finer_grid (non-dyadic): an inserted point does not repeat the value of the preceding point", dict(ctx, index=i))
+                break
+            prev = v
+        else:
+            if k != len(vals):
+                report(res, "build_finer_grid (non-dyadic): an original value is missing from the result", ctx)
+
+
 def copula_cases(res, rng, tier):
     """MarkovChainLevyCopula (2-d, independent copula of two step models) through simulate_one_path: one product
     interval (several intervals fail: F-C15-2 / F-C15-4); every component is compared with the 1-d chain model"""
@@ -539,7 +650,7 @@ def copula_cases(res, rng, tier):
     from rpylib.distribution.sampling import SamplingMethod
     fixed_cases, jump_cases = [], []
     d = 2
-    for it in range(18 if tier == "quick" else 150):
+    for it in range(60 if tier == "quick" else 300):
         mode = ["jump", "cap", "fixed"][it % 3]
         n_int = 2 if it % 9 == 8 else 1
         dt = rng.choice([0.25, 1.0, 4.0]) if mode == "fixed" else rng.choice([0.5, 1.0, 2.0])
@@ -623,7 +734,7 @@ def copula_fixed_dates_replay(res):
             report(res, "MCLevyCopulaSimulationFixedTimes.project: wrong shape for two product dates", {"kind": "copula-project", "finding": "F-C15-2", "got": np.asarray(out).tolist()})
     except Exception as e:  # noqa
         report(res, f"MCLevyCopulaSimulationFixedTimes.project raises {type(e).__name__} for more than one product date",
-                      {"kind": "copula-project", "finding": "F-C15-2", "error": str(e)})
+                      {"kind": "copula-project", "finding": "F-C15-2", "error": f"{type(e).__name__}: {e}"})
 
 
 HEADER = """From Coq Require Import ZArith QArith Qabs List Bool.
@@ -666,6 +777,7 @@ def correspond(res):
     rng = random.Random(res.seed)
     tier = res.tier
     f1, fd, fc = finer_grid_cases(res, rng, tier)
+    finer_grid_nondyadic(res, rng, tier)
     fixed, jump = single_process_cases(res, rng, tier)
     cfixed, cjump = coupled_cases(res, rng, tier)
     kfixed, kjump = copula_cases(res, rng, tier)
